@@ -246,3 +246,10 @@ Definition fitted_members (spec : list centry) : list cmember :=
 Definition colens_spec_proba (k : nat) (spec : list centry) (x : instance) : list Q :=
   colens_proba k (fitted_members spec) x.
 
+(* the three things BaseColumnEnsembleClassifier._iter looks at in an entry *)
+Definition entry_is_drop (e : centry) : bool := match e with EDrop _ => true | EClf _ _ => false end.
+Definition entry_is_empty (e : centry) : bool :=
+  match e with EDrop [] | EClf [] _ => true | _ => false end.
+Definition entry_is_member (e : centry) : bool :=
+  match e with EDrop _ => false | EClf [] _ => false | EClf (_ :: _) _ => true end.
+
